@@ -200,3 +200,20 @@ def dt_online(text, names, data, n=None, times=None, kind='dt', sd=None, pastify
 
 def is_rtamt_exc(e):
     return isinstance(e, RTAMTException)
+
+
+# ---------------------------------------------------------------------------------------
+# dense time
+
+def ct_args(signals, names=None):
+    """{var: [(t, v), ..]} -> evaluate()/update() argument list with fresh float lists."""
+    names = names if names is not None else sorted(signals)
+    return [[k, [[float(t), float(v)] for (t, v) in signals[k]]] for k in names]
+
+
+def ct_offline(text, names, signals, kind='ct', sd=None):
+    sdd = {'text': text, 'vars': list(names)}
+    if sd:
+        sdd.update(sd)
+    m = Mon(kind, sdd)
+    return m.evaluate(*ct_args(signals, names))
